@@ -238,17 +238,16 @@ func (k *checker) checkState(full, tableChanged bool, touched ...int) string {
 		}
 	}
 	if small {
+		// judged for data-rate indices that can exist (0..15) only: what the list does with the negative or huge bounds a
+		// caller may have passed to AddChannel, and the order of the list, are nobody's promise
 		drs := b.GetEnabledUplinkDataRates()
 		have := map[int]bool{}
-		for i, d := range drs {
-			if i > 0 && drs[i-1] >= d {
-				return fmt.Sprintf("%s: GetEnabledUplinkDataRates = %v is not strictly ascending", k.where(), drs)
-			}
+		for _, d := range drs {
 			have[d] = true
 		}
 		anyCh := map[int]bool{}
 		for _, c := range m.up {
-			for d := c.minDR; d <= c.maxDR; d++ {
+			for d := max(c.minDR, 0); d <= min(c.maxDR, 15); d++ {
 				anyCh[d] = true
 				if c.enabled && !have[d] {
 					return fmt.Sprintf("%s: GetEnabledUplinkDataRates = %v lacks DR %d of an enabled channel", k.where(), drs, d)
@@ -256,7 +255,7 @@ func (k *checker) checkState(full, tableChanged bool, touched ...int) string {
 			}
 		}
 		for _, d := range drs {
-			if !anyCh[d] {
+			if d >= 0 && d <= 15 && !anyCh[d] {
 				return fmt.Sprintf("%s: GetEnabledUplinkDataRates = %v contains DR %d which no channel has", k.where(), drs, d)
 			}
 		}
@@ -1466,7 +1465,7 @@ func TestProp(t *testing.T) {
 	r := evid.Begin(t, "C15")
 	defer r.Finish()
 
-	const oracle = " Oracle: a model (slice of channel records {frequency, MinDR, MaxDR, enabled, custom}; AddChannel appends an enabled=(frequency != 0) custom record to uplink and downlink tables on the 11 dynamic plans and fails without effect on US915/AU915/CN470; Disable/Enable flip one flag for 0 <= i < n and fail otherwise). After EVERY step: the five index-set getters equal the model and partition, GetUplinkChannel/GetDownlinkChannel equal the model record by record, and so does the snapshot hook (taken on the fresh band, after every successful AddChannel and on the last step) (so standard channels never change), GetUplinkChannelIndex(f, default) and GetUplinkChannelIndexForFrequencyDR(f, dr) for every channel frequency x {default, custom} x DR {min, max, min-1, max+1} return a matching channel or an error exactly when none matches (all channels on the fresh band, on the last step and after an AddChannel that repeats an existing frequency; the op's channel and the newest channel on the other steps) (a match shadowed by another custom channel on the same frequency is counted, not judged), index n (n+1 too on the fresh band, the last step and after a frequency-repeating AddChannel) and the op's own integers are probed on GetUplinkChannel/GetDownlinkChannel/GetTXPowerOffset/GetRX1DataRateIndex (error, never panic; valid ones give the model value), GetEnabledUplinkDataRates (only while all DR ranges are small) is ascending, covers the enabled channels and nothing no channel has; GetCFList for the 6 protocol versions: fixed plans nil before 1.0.3, else exactly the enabled bits; dynamic plans the first five of the custom channels with DR 0..5 (0..7 on ISM2400; the harness's own constants) in order (disabled ones optional; in states with a zero-frequency candidate the list is positional: exactly the first five candidates, zeros included, or nil when the first is zero), nil if none; MAC layer: default and validly added channels through NewChannelReq / DLChannelReq, RX2 default through RXParamSetupReq, ping-slot frequency through PingSlotChannelReq and BeaconFreqReq, the CFList bare and inside a JoinAcceptPayload (a decoded list kept by value stays what it was while its variable decodes another list; a list the CFList encoder refuses must be refused by the join-accept encoder too; the join-accept with MIC set and encrypted is opened by a device written from the specification, which must read the same payload and a valid MIC), the planner's LinkADRReq payloads (device state = standard channels / none / all / the enabled set, one of them per step and all four on the fresh band and the last step), and the commands together in one downlink (RXParamSetupReq, PingSlotChannelReq, BeaconFreqReq, NewChannelReq and DLChannelReq of the newest and first channel - those the encoders accept - rotated by the device address, followed by the planner's LinkADRReq block: as FRMPayload of an encrypted port-0 downlink and, as many as fit 15 octets, as FOpts; frame encoded, decoded into a fresh PHYPayload, commands compared in order) - each must encode and decode to the same values (asserted only for frequencies that are valid caller input: multiple of 100 Hz in 0.1-1 GHz, multiple of 200 Hz in 2.4-2.5 GHz, or 0; for any other configured frequency NewChannelReq / DLChannelReq may refuse, but what they encode must decode to that frequency - outside 1.2-1.6777 GHz, where C07's known finding K2 lives). ISM2400 frequencies refused with the max-value error by the five 100-Hz encoders are the known finding K3. Non-trivial: at least one successful AddChannel and one successful Disable, or a Disable/Enable with an invalid index."
+	const oracle = " Oracle: a model (slice of channel records {frequency, MinDR, MaxDR, enabled, custom}; AddChannel appends an enabled=(frequency != 0) custom record to uplink and downlink tables on the 11 dynamic plans and fails without effect on US915/AU915/CN470; Disable/Enable flip one flag for 0 <= i < n and fail otherwise). After EVERY step: the five index-set getters equal the model and partition, GetUplinkChannel/GetDownlinkChannel equal the model record by record, and so does the snapshot hook (taken on the fresh band, after every successful AddChannel and on the last step) (so standard channels never change), GetUplinkChannelIndex(f, default) and GetUplinkChannelIndexForFrequencyDR(f, dr) for every channel frequency x {default, custom} x DR {min, max, min-1, max+1} return a matching channel or an error exactly when none matches (all channels on the fresh band, on the last step and after an AddChannel that repeats an existing frequency; the op's channel and the newest channel on the other steps) (a match shadowed by another custom channel on the same frequency is counted, not judged), index n (n+1 too on the fresh band, the last step and after a frequency-repeating AddChannel) and the op's own integers are probed on GetUplinkChannel/GetDownlinkChannel/GetTXPowerOffset/GetRX1DataRateIndex (error, never panic; valid ones give the model value), GetEnabledUplinkDataRates (only while all DR ranges are small; judged for indices 0..15) covers the enabled channels and lists nothing that no channel has; GetCFList for the 6 protocol versions: fixed plans nil before 1.0.3, else exactly the enabled bits; dynamic plans the first five of the custom channels with DR 0..5 (0..7 on ISM2400; the harness's own constants) in order (disabled ones optional; in states with a zero-frequency candidate the list is positional: exactly the first five candidates, zeros included, or nil when the first is zero), nil if none; MAC layer: default and validly added channels through NewChannelReq / DLChannelReq, RX2 default through RXParamSetupReq, ping-slot frequency through PingSlotChannelReq and BeaconFreqReq, the CFList bare and inside a JoinAcceptPayload (a decoded list kept by value stays what it was while its variable decodes another list; a list the CFList encoder refuses must be refused by the join-accept encoder too; the join-accept with MIC set and encrypted is opened by a device written from the specification, which must read the same payload and a valid MIC), the planner's LinkADRReq payloads (device state = standard channels / none / all / the enabled set, one of them per step and all four on the fresh band and the last step), and the commands together in one downlink (RXParamSetupReq, PingSlotChannelReq, BeaconFreqReq, NewChannelReq and DLChannelReq of the newest and first channel - those the encoders accept - rotated by the device address, followed by the planner's LinkADRReq block: as FRMPayload of an encrypted port-0 downlink and, as many as fit 15 octets, as FOpts; frame encoded, decoded into a fresh PHYPayload, commands compared in order) - each must encode and decode to the same values (asserted only for frequencies that are valid caller input: multiple of 100 Hz in 0.1-1 GHz, multiple of 200 Hz in 2.4-2.5 GHz, or 0; for any other configured frequency NewChannelReq / DLChannelReq may refuse, but what they encode must decode to that frequency - outside 1.2-1.6777 GHz, where C07's known finding K2 lives). ISM2400 frequencies refused with the max-value error by the five 100-Hz encoders are the known finding K3. Non-trivial: at least one successful AddChannel and one successful Disable, or a Disable/Enable with an invalid index."
 
 	// the K3 witness lives in this sub-check, so it runs first (the framework activates a known class when its witness fails)
 	evid.Rapid(r, t, "valid-histories",
